@@ -3,6 +3,7 @@ import NixModel.NDArray
 import NixModel.Spec.C01
 import NixModel.Dump
 import NixModel.Spec.C14
+import NixModel.Spec.C15
 namespace Nix.Drive
 
 /-- the axis a trace is currently talking about (index family) -/
@@ -37,10 +38,21 @@ structure PvSt where
   hist : List (C14.Ev String String) := []
   opened : Bool := false
 
+/-- frame family (C15): the frame model and the history of calls the IMPLEMENTATION accepted (most recent first) -/
+structure FrSt where
+  model : DF.FSt String := {}
+  hist : List (C15.Ev String) := []
+  opened : Bool := false
+
+/-- the state of the `props` (C14) and `frame` (C15) families -/
+structure DevPropsSt where
+  pv : PvSt := {}
+  fr : FrSt := {}
+
 structure DState where
   axis : AxisDesc := .none
   arr : Option ArrSt := none
   store : StoreSt := {}
-  pv : PvSt := {}
+  dp : DevPropsSt := {}
 
 end Nix.Drive
